@@ -20,6 +20,7 @@ type Options struct {
 	Root       string // repository under verification
 	Verif      string // /verif (baseline, known findings, evidence, replays)
 	Prop       string
+	NoEvidence bool   // development runs (a single module or function) must not overwrite the evidence file
 	Tier       string // quick | thorough
 	Seed       int
 	Timeout    time.Duration
